@@ -130,6 +130,22 @@ impl Iso2022JpDecoder {
         loop_preamble = {},
         eof = {
             match self.decoder_state {
+                Iso2022JpDecoderState::TrailByte
+                | Iso2022JpDecoderState::EscapeStart
+                | Iso2022JpDecoderState::Escape => {
+                    // The error reported below can directly follow an error
+                    // reported for the last byte of the stream (e.g. ESC in
+                    // the trail byte state), so unlike in the other decoders
+                    // the space check made before reading that byte does not
+                    // guarantee that there is still space for the
+                    // REPLACEMENT CHARACTER the caller writes for this one.
+                    if let Space::Full(dst_written) = dest.check_space_bmp() {
+                        return (DecoderResult::OutputFull, src_consumed, dst_written);
+                    }
+                }
+                _ => {}
+            }
+            match self.decoder_state {
                 Iso2022JpDecoderState::TrailByte | Iso2022JpDecoderState::EscapeStart => {
                     self.decoder_state = self.output_state;
                     return (DecoderResult::Malformed(1, 0), src_consumed, dest.written());
